@@ -1,10 +1,10 @@
 SPECIFICATION GSpec
 CONSTANTS Keys = {"a"}
-          NReq = 3
+          NReq = 2
           NProv = 2
           Devs = {}
           MipSet = {1}
-          MpcSet = {0}
+          MpcSet = {0, 1}
           FpSet = {FALSE}
           IgnSets = {{}}
           MaxTicks = 0
@@ -12,5 +12,6 @@ CONSTANTS Keys = {"a"}
           DialSet = {"ok"}
           AllowClose = FALSE
           D = 6
+          Ops = {"Call", "Emit", "Dial"}
 INVARIANTS GEmit GAllClosed
 CHECK_DEADLOCK FALSE
